@@ -489,3 +489,8 @@ def run(ctx):
     # the life of client-side subscriptions sharing a connection: who owns a handler slot (SubLife.tla)
     import ext_sublife
     ext_sublife.run(ctx)
+
+    # the observation modes of a served object (statistics, tracing) and what they do to the message path
+    # (ObjectModes.tla, design-notes/EXT-modes.md); classes outside this property's statement are observations
+    import ext_modes
+    ext_modes.run(ctx)
